@@ -180,3 +180,6 @@ def _dispatch_order(ctx):
     import core, c09
     n = core.adopt(ctx, c09, lambda o: o["rule"] == "C09.a" and ("iterates-in-registration-order" in o["key"] or "queues-at-back" in o["key"]), "C12.d")
     ctx.floor("C12.d", n, 15, "shared dispatch-order obligations (C09.a)")
+    import c02
+    n2 = core.adopt(ctx, c02, lambda o: o["rule"] == "C02.c" and ("::replay:" in o["key"] or "replay-present" in o["key"] or "replay-between" in o["key"]), "C12.c")
+    ctx.floor("C12.c", n2, 6, "shared replay obligations (C02.c): postponed deliveries are replayed in place, in queue order")
